@@ -840,6 +840,40 @@ def rule_R26(text, applied):
     return text
 
 
+def rule_R26fm(text, applied):
+    """a function that returns `X.stack().filter_map(|d| BODY)` as `impl Iterator<Item = T> + '_` is verified as the
+    sequence that iterator yields: return type `Vec<T>`, body
+      { let mut out_ = Vec::new(); let mut si_: usize = 0;
+        while si_ < X.stack.len() { let d = &X.stack[si_]; si_ += 1; match BODY { Some(x_) => { out_.push(x_); } None => {} } }
+        out_ }
+    (std definition of filter_map; DecisionTracker::stack() = `self.stack.iter().copied()`)."""
+    m_text = mask(text)
+    rm = re.search(r"->\s*impl\s+Iterator\s*<\s*Item\s*=\s*(\w+)\s*>\s*\+\s*'_", m_text)
+    if not rm:
+        raise ExtractError("R26fm: return type is not `impl Iterator<Item = T> + '_` (lost anchor)")
+    text = text[:rm.start()] + f"-> Vec<{rm.group(1)}>" + text[rm.end():]
+    m_text = mask(text)
+    m = re.search(r"((?:\w+\s*\.\s*)*\w+)\s*\.\s*stack\(\)\s*\.\s*filter_map\s*\(", m_text)
+    if not m:
+        raise ExtractError("R26fm: `X.stack().filter_map(..)` not found (lost anchor)")
+    recv = "".join(m.group(1).split())
+    op = m.end() - 1
+    cp = match_close(m_text, op)
+    arg = text[op + 1:cp]
+    cm = re.match(r"\s*\|\s*(\w+)\s*\|\s*", mask(arg))
+    if not cm:
+        raise ExtractError("R26fm: filter_map argument is not a closure literal")
+    var = cm.group(1)
+    body = arg[cm.end():].strip().rstrip(",").strip()
+    if re.search(r"\breturn\b", mask(body)):
+        raise ExtractError("R26fm: `return` in the closure (outside the subset)")
+    code = (f"{{ let mut out_ = Vec::new(); let mut si_: usize = 0; while si_ < {recv}.stack.len() {{ let {var} = &{recv}.stack[si_]; si_ += 1; "
+            f"match {body} {{ Some(x_) => {{ out_.push(x_); }} None => {{}} }} }} out_ }}")
+    text = text[:m.start(1)] + _keep_newlines(text[m.start(1):cp + 1], code) + text[cp + 1:]
+    applied.append("R26fm")
+    return text
+
+
 def rule_R6(text, applied):
     """receiver `mut self` -> `self` plus `let mut self_ = self;` as first statement; `self` -> `self_` in the body."""
     m_text = mask(text)
@@ -1495,7 +1529,7 @@ def rule_const(text, applied):
 
 
 RULES = {
-    "R26": rule_R26,
+    "R26": rule_R26, "R26fm": rule_R26fm,
     "R25": rule_R25, "R7optake": rule_R7optake,
     "R23": rule_R23, "R24": rule_R24,
     "R16push": rule_R16push, "R22": rule_R22, "R22flat": rule_R22flat,
